@@ -22,6 +22,7 @@ Consume ==
          [] e.k = "op" /\ e.a = "check"   -> Check(e)
          [] e.k = "op" /\ e.a = "release" -> Release(e)
          [] e.k = "op" /\ e.a = "droploan" -> DropLoan(e)
+         [] e.k = "op" /\ e.a = "panic"   -> Panic(e)
          [] OTHER -> FALSE
 
 TraceNext == Consume
